@@ -1,7 +1,7 @@
 (* Property C10 -- matrix operations on observable matrices satisfy their defining identities.  Theorems only. *)
 From Coq Require Import ZArith QArith Reals List Bool.
 From Interval Require Import Interval.Interval Real.Xreal Real.Xreal_derive.
-From PV Require Import Base.QAux Base.RI Base.Expr Base.ExprFold Base.Dyadic Base.DyadicR Lin.Mat Fit.Implicit Fit.ImplicitSound Fit.ImplicitTop Fit.TableSound.
+From PV Require Import Base.QAux Base.RI Base.Expr Base.ExprFold Base.Dyadic Base.DyadicR Lin.Mat Fit.Implicit Fit.ImplicitSound Fit.ImplicitTop Fit.TableSound Fit.VerdictSound.
 Import ListNotations.
 
 (* the defining identities are polynomial systems; their symbolic derivatives (the differentiated identities decided on every
@@ -117,3 +117,12 @@ Print Assumptions interval_bounds_as_dyadics.
 Print Assumptions differentiated_equation_decision_is_sound.
 Print Assumptions positive_verdict_implies_the_differentiated_equations.
 Print Assumptions fluctuation_table_rows_enclose_the_weighted_fluctuations.
+
+(* the identity verdict is sound as a statement about real numbers (Fit/VerdictSound.v): the residual of a defining identity at the
+   returned entries is below tol * sum_j |d eq / d u_j| (1 + |u_j|) with the real partial derivatives *)
+Theorem identity_verdict_is_sound :
+  forall (c : icase) tol eq, guardsI (ic_env c) eq = true -> eq_holds c tol eq = true ->
+  exists r, evalX (renv (qenvR (ic_uvals c ++ ic_dvals c))) eq = Xreal r
+            /\ (Rabs r <= Q2R tol * real_scale (ic_uvals c ++ ic_dvals c) (ic_uvals c) eq (seq 0 (ic_nu c)))%R.
+Proof. exact eq_holds_sound. Qed.
+Print Assumptions identity_verdict_is_sound.
